@@ -3,7 +3,7 @@ from .. import rx
 from ..consumerflow import consumer_scenarios
 from ..lineflow import LineShape, token_class
 from ..models import make_interp
-from ..normflow import decision_table
+from ..normflow import decision_table, decision_table_if_applicable
 from ..values import AbsList, Hole, Join, Lit, Str
 from ._parser import HEX, instr_patterns
 
@@ -42,7 +42,7 @@ def run(ctx) -> None:
         ok = len(streams) == 2 and _norm(streams[0]) == _norm(streams[1])
         ctx.check(ok, "C10.W.stream-per-run", "MasterOfPuppets.perform_matching x2", f"{streams}"[:220],
                   "a repeated operation searches the same stream as the first one (records are not accumulated across runs)")
-    paths, sites, pats = instr_patterns(I)
+    paths, sites, pats = instr_patterns(I, ctx)
     for pat, roles in sorted(pats.items()):
         sh = LineShape(pat)
         for k in sorted(roles.get("addr", ())):
@@ -61,7 +61,7 @@ def run(ctx) -> None:
     site_field_kinds(ctx, "C10.F.field-kinds", I, sites)
     operands_from_operand_group(ctx, "C10.F.operands-only-from-operand-group", I, sites)
     _shape_rules(ctx)
-    for a, row, outs, raises in decision_table(I):
+    for a, row, outs, raises in decision_table_if_applicable(ctx, I):
         if a["has,"] and a["has("] and a["has)"]:
             cls = "&".join(k for k, v in a.items() if v)
             bad = [o for o in outs if "OP]" in o.replace("minus", "") and False]
@@ -76,6 +76,7 @@ def _shape_rules(ctx) -> None:
     # with every memory operand folded into one comma-free field
     from .. import shapes
     shapes.line_record_rule(ctx, make_interp(ctx.p), "C10.R.line-to-record")
+    shapes.decorated_operand_rule(ctx, make_interp(ctx.p), "C10.F.decorated-operand-is-one-field")
 
 
 def _raw_slot(out: str) -> bool:
